@@ -168,6 +168,11 @@ func (c *Ctl) Canon(p string) string {
 	if p == "" {
 		return ""
 	}
+	if !filepath.IsAbs(p) {
+		if wd, err := os.Getwd(); err == nil {
+			p = filepath.Join(wd, p)
+		}
+	}
 	if rel, err := filepath.Rel(c.Root, p); err == nil && !strings.HasPrefix(rel, "..") {
 		p = rel
 	}
@@ -197,6 +202,7 @@ func (c *Ctl) Install() {
 	c.Trace = c.Trace[:0]
 	c.Fired = nil
 	vos.ResetSeq()
+	vos.SkipRealSync = true
 	vos.Before = func(ev *vos.Event) error {
 		if c.Filter != nil {
 			if !c.Filter(ev) {
